@@ -2,6 +2,8 @@ package main
 
 import (
 	"fmt"
+	"os"
+	"time"
 	"go/types"
 	"sort"
 	"strings"
@@ -122,6 +124,14 @@ func ruleSiblingAPI(r *rep.Report, ref, p *load.Program) {
 	}
 }
 
+func timed(name string, f func()) {
+	t0 := time.Now()
+	f()
+	if os.Getenv("EDCHECK_TIMING") != "" {
+		fmt.Fprintf(os.Stderr, "TIMING %-24s %.2fs\n", name, time.Since(t0).Seconds())
+	}
+}
+
 func checkC08(c *Ctx, r *rep.Report) {
 	r.Explanation = "K1: every configuration of the matrix loads, type-checks and compiles exactly the expected member of each sibling-file group (limb layout x3, table selector, conditional move); K2: all configurations export the same API; K3/A: layout constants are consistent and the 64- and 32-bit constants and tables denote the same field elements / points (each equals the independently recomputed value); structural arithmetic rules (unrolled-stage uniformity, partial-product coverage, magnitude analysis) hold on both limb layouts; Z: the assembly selector; T and M hold per configuration (C20, C15)."
 	r.NotDecided = "observational equality of outputs on all inputs is numeric; the rules decide the necessary conditions a backend-confined divergence would have to break (wrong selection, wrong constant, lost carry, non-uniform stage, secret-dependent or stateful variant)"
@@ -138,15 +148,14 @@ func checkC08(c *Ctx, r *rep.Report) {
 			ruleSiblingAPI(r, ref, p)
 		}
 		ruleConfigSelection(r, p)
-		ruleFieldConstants(r, p)
-		ruleTables(r, p)
+		timed("fieldconst", func() { ruleFieldConstants(r, p) })
+		timed("tables", func() { ruleTables(r, p) })
 		ruleScalarConstants(r, p)
 		ruleAsm(r, p)
-		ruleArithStructure(r, p)
-		ruleSelector(r, p)
+		timed("unrolled", func() { ruleArithStructure(r, p) })
+		timed("selector", func() { ruleSelector(r, p) })
 		ruleSwap(r, p)
-		ruleBitOrigin(r, p, "modm")
-		ruleBitOrigin(r, p, "curve25519")
+		timed("bitorigin", func() { ruleBitOrigin(r, p, "modm"); ruleBitOrigin(r, p, "curve25519") })
 	}
 }
 
